@@ -66,6 +66,8 @@ func main() {
 		os.Exit(cmdCheck(os.Args[2:]))
 	case "dump":
 		os.Exit(cmdDump(os.Args[2:]))
+	case "baseline":
+		os.Exit(cmdBaseline(os.Args[2:]))
 	case "replay":
 		os.Exit(cmdReplay(os.Args[2:]))
 	default:
@@ -88,6 +90,7 @@ func setup(repo, verif, tags string) (*Prog, error) {
 		return nil, err
 	}
 	p.CS = cs
+	p.VerifRoot = verif
 	p.Notes = p.synthesizeFrontends()
 	p.computeEffects()
 	return p, nil
@@ -411,14 +414,29 @@ func report(r *checkResult, pc *PropConfig, cfg RunConfig, verif string, seed in
 	exit := 0
 	violations := 0
 	known := 0
+	undecided := 0
+	undecidedSeen := map[string]bool{}
 	for _, o := range failed {
 		if k := matchKnown(kfs, pc.ID, o.Name); k != nil {
 			fmt.Printf("KNOWN-FINDING: property=%s %s [%s]\n", pc.ID, k.What, o.Name)
 			known++
 			continue
 		}
-		violations++
 		path := writeReplay(verif, pc.ID, o)
+		if nh := newHelpers(verif, o); len(nh) > 0 && !o.replayed && o.replayPassed {
+			// Modular verification knows a callee by its contract only. A helper that the pinned tree does not
+			// have (extracted by the change under check) has none, so its results and effects are arbitrary
+			// and the caller's obligations cannot be decided -- by a harmless extraction as by a harmful
+			// one. The replay ran on the real code and passed: undecided, not a violation.
+			undecided++
+			if undecidedSeen[o.Func] {
+				continue
+			}
+			undecidedSeen[o.Func] = true
+			fmt.Printf("CHECK-ERROR property=%s %s: undecided: %s now calls %s, which the pinned tree does not have and which has no contract; the replay passes on the real code (replay file %s). Give the helper a contract.\n", pc.ID, o.Name, o.Func, strings.Join(nh, ", "), path)
+			continue
+		}
+		violations++
 		tail := ""
 		if !o.replayed {
 			tail = " no-failing-input-found"
@@ -428,6 +446,9 @@ func report(r *checkResult, pc *PropConfig, cfg RunConfig, verif string, seed in
 			fmt.Printf("  spec: %s\n", o.Src)
 		}
 		exit = 1
+	}
+	if undecided > 0 && exit == 0 {
+		exit = 2
 	}
 	for _, e := range r.errors {
 		fmt.Printf("CHECK-ERROR property=%s %s\n", pc.ID, e)
@@ -563,5 +584,107 @@ func cmdDump(args []string) int {
 			fmt.Println("  warning:", w)
 		}
 	}
+	return 0
+}
+
+// Baseline: the names of all module functions of the pinned tree (baseline_funcs.json, written by
+// `govc baseline` and committed). A contract-less callee that is not in it was introduced by the change
+// under check.
+var baselineFuncs map[string]bool
+
+func newHelpers(verif string, o *Obligation) []string {
+	if o.fv == nil || len(o.fv.helpers) == 0 {
+		return nil
+	}
+	if baselineFuncs == nil {
+		baselineFuncs = map[string]bool{}
+		var names []string
+		if data, err := os.ReadFile(filepath.Join(verif, "baseline_funcs.json")); err == nil {
+			json.Unmarshal(data, &names)
+		}
+		for _, n := range names {
+			baselineFuncs[n] = true
+		}
+	}
+	if len(baselineFuncs) == 0 {
+		return nil // no baseline: the policy is off
+	}
+	var out []string
+	for h := range o.fv.helpers {
+		if !baselineFuncs[h] {
+			out = append(out, h)
+		}
+	}
+	sort.Strings(out)
+	return out
+}
+
+func cmdBaseline(args []string) int {
+	fs := flag.NewFlagSet("baseline", flag.ExitOnError)
+	repo := fs.String("repo", "/repo", "repository root")
+	verif := fs.String("verif", "/verif", "verif root")
+	fs.Parse(args)
+	seen := map[string]bool{}
+	for _, tags := range []string{"", "binary_log"} {
+		p, err := setup(*repo, *verif, tags)
+		if err != nil {
+			fmt.Fprintln(os.Stderr, err)
+			return 2
+		}
+		for _, fn := range p.AllFns {
+			if p.inModule(fn) {
+				seen[shortFn(fn)] = true
+			}
+		}
+	}
+	bn := map[string]fnNames{}
+	for _, tags := range []string{"", "binary_log"} {
+		p, err := setup(*repo, *verif, tags)
+		if err != nil {
+			fmt.Fprintln(os.Stderr, err)
+			return 2
+		}
+		for _, c := range p.CS.ByKey {
+			fn := p.FnByKey[c.Key]
+			if c.Kind != "func" || fn == nil || len(fn.Blocks) == 0 {
+				continue
+			}
+			e := fnNames{Loops: map[string][]string{}}
+			for _, f := range fn.FreeVars {
+				e.FreeVars = append(e.FreeVars, f.Name())
+			}
+			fv := newFuncVC(p, fn, c)
+			fv.analyseCFG()
+			for h, n := range fv.loopHeads {
+				var ns []string
+				for _, in := range h.Instrs {
+					ph, ok := in.(*ssa.Phi)
+					if !ok {
+						break
+					}
+					ns = append(ns, phiName(ph))
+				}
+				if n > 0 && len(ns) > 0 {
+					e.Loops[strconv.Itoa(n)] = ns
+				}
+			}
+			if len(e.FreeVars) > 0 || len(e.Loops) > 0 {
+				bn[fn.String()] = e
+			}
+		}
+	}
+	nd, _ := json.MarshalIndent(bn, "", " ")
+	if err := os.WriteFile(filepath.Join(*verif, "baseline_names.json"), nd, 0o644); err != nil {
+		fmt.Fprintln(os.Stderr, err)
+		return 2
+	}
+	fmt.Printf("%d functions under contract with named loop or captured variables\n", len(bn))
+	names := sortedKeys(seen)
+	data, _ := json.MarshalIndent(names, "", " ")
+	if err := os.WriteFile(filepath.Join(*verif, "baseline_funcs.json"), data, 0o644); err != nil {
+		fmt.Fprintln(os.Stderr, err)
+		return 2
+	}
+	fmt.Printf("%d module functions in the baseline\n", len(names))
 	return 0
 }
